@@ -57,7 +57,8 @@ func GetJsonDataType(t dsl.Type) JsonDataType {
 		case dsl.ComplexFloat32, dsl.ComplexFloat64:
 			return JsonArray
 		case dsl.Date, dsl.Time, dsl.DateTime:
-			return JsonNumber
+			// written as strings; JsonNumber is kept so that unions that were tagged stay tagged
+			return JsonString | JsonNumber
 		default:
 			panic(fmt.Sprintf("unexpected primitive type %s", td))
 		}
